@@ -223,6 +223,36 @@ def execute(version, script, token, user_plug, seed, thr_of=None, keybits=1024, 
     return run
 
 
+def hasty_disconnect(version, kind, seed):
+    """A server that refuses at the door: the login disconnect packet and the close come before the client has written
+    anything, so the client's own first writes fail (EPIPE) in the very round in which the disconnect packet is read.
+    The write error is not the news - the server's message is. (Round 11, C10k.)"""
+    prof = Profile(version)
+    run = Run(seed=seed, chunk='random')
+    run.grammar = False         # nothing of the client reaches the wire in this scenario
+
+    def factory(idx, sess):
+        sc = TracingScript(run, prof, [])
+        sc.steps = [('send', prof.login_disconnect(TEXTS[kind][0])), ('close',)]
+        return sc
+    run.serve(factory)
+
+    def scenario(run):
+        c = run.make_connection(allowed_versions={version})
+        c.connect()
+    run.go(scenario)
+    if run.outcome != 'done':
+        return 'execution ended as %s' % run.outcome
+    names = [type(e).__name__ for e in run.errors]
+    want = 'VersionMismatch' if kind.startswith('outdated') else 'LoginDisconnect'
+    if names != [want]:
+        return 'reported %r, not one %s' % (names, want)
+    _, msg, ver = TEXTS[kind]
+    if (msg or ver) not in str(run.errors[0]):
+        return 'the error does not carry the server\'s message: %r' % (str(run.errors[0])[:120],)
+    return None
+
+
 def observe(run, token, user_plug, thr_index):
     """Project the run onto Trace_Login events; also returns the frame list for the S->I comparison."""
     info = run.info
@@ -451,6 +481,16 @@ def run(chk):
                              bad and bad['ev'][at - 1:at]), {'trace': bad})
         elif not r2.ok:
             raise core.MachineryError('Trace_Login failed: %s' % r2.errors[:3])
+    # ---- refused at the door: disconnect packet and close before the client has written anything
+    kinds = sorted(TEXTS)
+    for j in range(len(kinds) * (1 if chk.tier == 'quick' else 6)):
+        v, kind = [47, 340, 384, 385, 390, 391, 706, 707, 757][j % 9], kinds[j % len(kinds)]
+        what = hasty_disconnect(v, kind, chk.seed * 313 + j)
+        chk.traces += 1
+        chk.case(('hasty', v, kind))
+        if what:
+            chk.violation('login:disconnect-before-first-write', 'the server sends its login disconnect (%s) and closes before the client '
+                          'has written its handshake (protocol %d): %s' % (kind, v, what), {'version': v, 'kind': kind, 'seed': chk.seed * 313 + j})
     chk.extra['behaviours_replayed'] = len(rows)
     chk.extra['random_scripts'] = n_rand
     chk.assumptions += ['RSA private-key operation and the AES block primitive of the peer come from the cryptography package (C18 checks the cipher)',
